@@ -118,15 +118,15 @@ class S10(Sim):
                             V("refused-without-holder", f"{who} was refused although no other handle could have held the role at any instant of the attempt")
             elif op == "demote":
                 self.possible.discard(who)
-            elif op in ("stale_write", "stale_write_jobs"):
+            elif op in ("stale_write", "stale_write_jobs", "stale_demote"):
                 self.n_stale += 1
                 if out == "accepted":
-                    ver = call["cv"] if op == "stale_write" else call["jv"]
-                    disk = call["disk"][0] if op == "stale_write" else call["disk"][1]
+                    ver = call["cv"] if op != "stale_write_jobs" else call["jv"]
+                    disk = call["disk"][0] if op != "stale_write_jobs" else call["disk"][1]
                     V("stale-write-accepted", f"{who}: {op} from a copy at version {ver} accepted although disk was at {disk}")
                 elif out == "rejected":
                     self.n_rejected += 1
-                    want = "ConfigVersionMismatch" if op == "stale_write" else "JobStatusVersionMismatch"
+                    want = "ConfigVersionMismatch" if op != "stale_write_jobs" else "JobStatusVersionMismatch"
                     if m.get("exc") != want:
                         V("wrong-rejection", f"{who}: {op} rejected with {m.get('exc')}, expected {want}")
             self.hist.append((who, op, {k: v for k, v in m.items() if k not in ("k", "who", "op")}))
@@ -138,7 +138,7 @@ class S10(Sim):
         who = (a.msg or {}).get("who") if a.msg and a.msg.get("k") in ("call", "ret") else None
         in_stale = None
         for w, c in self.pending_calls.items():
-            if c.get("_pid") == a.pid and c["op"] in ("stale_write", "stale_write_jobs", "stale_promote"):
+            if c.get("_pid") == a.pid and c["op"] in ("stale_write", "stale_write_jobs", "stale_promote", "stale_demote"):
                 in_stale = w
         if a.msg and a.msg.get("k") == "call":
             a.msg["_pid"] = a.pid
